@@ -7,6 +7,8 @@
   R-C12-no-global-state  no `static mut`, no thread_local, no static / lazy_static whose type has interior mutability
                          (Mutex, RwLock, RefCell, Cell, Atomic*, OnceCell, UnsafeCell): nothing can carry state across evaluations
   R-C12-scope-is-local   RootScope values are not stored into any struct field, static or collection by their creators
+  R-C12-every-file-loaded  the discovery loops of Validate::execute skip a found file only for not being a regular file or not having a
+                         supported extension; every other path of the loop body loads it (no de-duplication, no size test): no pair vanishes
 "the run reports failure iff some pair does" is decided by C06.  Not claimed: effects of directory walk order on which files are found.
 """
 from engine import ai, cg, mirlib as M
@@ -204,6 +206,10 @@ def run(ctx):
     no_global_state(ctx, [ctx.lib, ctx.bin, ctx.crate("cfn_guard_lambda-lib"), ctx.crate("cfn_guard_ffi-lib")])
     scope_is_local(ctx, ctx.lib)
     per_document_counters(ctx, ctx.lib)
+    # every (rules, data) pair of the run exists only if every data file the walk finds is loaded: the discovery loops of
+    # Validate::execute skip a file only for not being a regular file or not having a supported extension (shared with C17)
+    from rules.c17 import every_file_loaded
+    every_file_loaded(ctx, ctx.lib, rule="R-C12-every-file-loaded")
     ctx.positive_control("R-C12-no-global-state", "statics", lambda sub, fx: no_global_state(sub, [fx]), ["COUNTER", "CACHE", "HITS", "SCRATCH"])
     ctx.assumptions += [
         "loops are explored for up to %d scope creations per path; a scope reuse that only appears later is outside this bound" % MAX_GEN,
